@@ -184,7 +184,7 @@ def check(run, F, tier):
                 r2.violation(key, "loop in %s is not recognised as terminating: %s" % (f["path"], kind[1]), site="%s:%s" % (f["file"], f["line"]))
 
     # ------------------------------------------------------------------ R3
-    r3 = run.rule("C05-R3", "a received packet is delivered, reported as an error, or answered as a QoS 2 duplicate - never swallowed", floor=30)
+    r3 = run.rule("C05-R3", "a received packet is delivered, reported as an error, or answered as a QoS 2 duplicate - never swallowed", floor=24)
     for (ver, kind), f in sorted(recvh.items()):
         res = conn.paths(F, f["path"])
         bad = {}
